@@ -1,13 +1,21 @@
 """C20 - VCL generated from remote and Terraform resources is valid and faithful.
 
-proof  : coq/Props/C20.v over Model/Escape.v: decode_escape, quote_no_dquote, lex_string_escape, table_roundtrip
-         (any number of items), acl_comment_one_line; unquoted_refuted_* for the templates before the repair.
+proof  : coq/Props/C20.v.  End to end over the real lexer / pump / parser models (Model/Lex.v, Pump.v, Parse*.v through
+         LexParse.parse_source): C20_table_parses_real, C20_acl_roundtrip, C20_backend_roundtrip, C20_director_roundtrip
+         (Proofs/C20Lex.v, C20Chain.v, C20Table.v, C20Acl.v, C20Backend.v).  Over Model/Escape.v alone: decode_escape,
+         quote_no_dquote, lex_string_escape, table_roundtrip, acl_comment_one_line; unquoted_refuted_* for the templates
+         before the repair.
 tie    : C  resource sets as Terraform plan JSON -> the real code path terraform.ParseStdin +
             TerraformFetcher + snippet.Fetch + EmbedSnippets (implrun tf); every generated item is parsed with the
             real parser and compared field by field with the input, and byte by byte with the rendering of the
             extracted model (render_dict / render_acl / render_backend / render_director), whose own parse of the
             table must return the items; decodeStringEscapes through lexer + parser (implrun unescape) against the
             model on arbitrary literals (valid, truncated and invalid escapes).
+         correspondence ONLY (no theorem): header rules (every action x type, ignore_if_set, conditions) compared as
+            parsed trees with the hand-written meaning of the rule; response objects (status, content type and body
+            read back from the parsed vcl_error part; the error statement in vcl_recv / vcl_fetch); VCL snippets of
+            every type (each exactly once, own name and content, ascending priority, equal priorities in the order
+            given, names that collide after sanitising, dynamic snippets with and without content).
 oracle : the field-by-field comparison with the input uses no model.
 """
 import os
@@ -25,7 +33,8 @@ def unhx(h):
 
 
 def parse_reply(r):
-    """-> list of services: {"name", "items": {name: (data, proj)}, "order": [names], "scoped": [(scope, name, data, ok)]}"""
+    """-> list of services: {"name", "items": {name: [(data, proj)]}, "order": [names], "scoped": [(scope, name, data, sproj, priority, extra)],
+    "include": {name: (data, sproj, priority)}}"""
     toks = r.split(" ")
     out = []
     i = 0
@@ -33,7 +42,7 @@ def parse_reply(r):
     while i < len(toks):
         t = toks[i]
         if t == "svc":
-            cur = {"name": unhx(toks[i + 1]).decode("utf-8", "replace"), "items": {}, "order": [], "scoped": [], "embed_error": False}
+            cur = {"name": unhx(toks[i + 1]).decode("utf-8", "replace"), "items": {}, "order": [], "scoped": [], "include": {}, "embed_error": False}
             out.append(cur)
             i += 2
         elif t == "item":
@@ -41,8 +50,11 @@ def parse_reply(r):
             cur["items"].setdefault(name, []).append((unhx(toks[i + 2]), toks[i + 3]))
             cur["order"].append(name)
             i += 4
-        elif t == "scoped":
-            cur["scoped"].append((toks[i + 1], unhx(toks[i + 2]).decode("utf-8", "replace"), unhx(toks[i + 3]), toks[i + 4]))
+        elif t == "scoped":   # scope, name, data, statement projection, priority, extra
+            cur["scoped"].append((toks[i + 1], unhx(toks[i + 2]).decode("utf-8", "replace"), unhx(toks[i + 3]), toks[i + 4], int(toks[i + 5]), toks[i + 6]))
+            i += 7
+        elif t == "include":  # name -> data, statement projection, priority
+            cur["include"][unhx(toks[i + 1]).decode("utf-8", "replace")] = (unhx(toks[i + 2]), toks[i + 3], int(toks[i + 4]))
             i += 5
         elif t == "err-embed":
             cur["embed_error"] = True
@@ -64,6 +76,96 @@ def corpus_sets():
     return out
 
 
+def fragments(ctx, rs, svc, rep, stats, pending):
+    """header rules, response objects and VCL snippets of one service (no model: the resource is the oracle)"""
+    conds = {c["name"]: c["statement"] for c in rs.get("conditions", [])}
+    by_scope = {}
+    for rec in svc["scoped"]:
+        by_scope.setdefault(rec[0], []).append(rec)
+
+    def find(scope, name):
+        hits = [r for r in by_scope.get(scope, []) if r[1] == name]
+        return hits
+
+    # ---- header rules: every action x type
+    for h in rs.get("headers", []):
+        if "type" not in h or h["type"] not in T.OBJ:
+            continue
+        key = "%s/%s" % (h["type"], h["action"])
+        stats["header_rules"][key] = stats["header_rules"].get(key, 0) + 1
+        hits = find(T.HEADER_SCOPE[h["type"]], "Remote.Header:" + h["name"])
+        if len(hits) != 1:
+            ctx.violation("header rule %s (%s) is generated %d times in vcl_%s" % (h["name"], key, len(hits), T.HEADER_SCOPE[h["type"]]), rep)
+            continue
+        _, _, data, sproj, prio, _ = hits[0]
+        others = [r for r in svc["scoped"] if r[1] == "Remote.Header:" + h["name"] and r[0] != T.HEADER_SCOPE[h["type"]]]
+        if others:
+            ctx.violation("header rule %s also appears in vcl_%s" % (h["name"], others[0][0]), rep)
+        pending.append((T.header_expected_vcl(h, conds), sproj, "header rule %s (%s%s%s)" % (
+            h["name"], key, ", ignore_if_set" if h.get("ignore_if_set") else "", ", condition" if h.get(h["type"] + "_condition") else ""), data, rep))
+    # ---- response objects: condition part (recv / fetch) and synthetic part (error)
+    for k, ro in enumerate(rs.get("response_objects", [])):
+        stats["response_objects"] += 1
+        code = 900 + k
+        scope, cond = "recv", ""
+        if ro.get("request_condition"):
+            cond = conds.get(ro["request_condition"], "")
+        elif ro.get("cache_condition"):
+            scope, cond = "fetch", conds.get(ro["cache_condition"], "")
+        hits = find(scope, "Remote.ResponseObject.Condition:" + ro["name"])
+        if len(hits) != 1:
+            ctx.violation("response object %s: its error statement is generated %d times in vcl_%s" % (ro["name"], len(hits), scope), rep)
+        else:
+            want = 'error %d "Fastly Internal";' % code
+            if cond:
+                want = "if (%s) { %s }" % (cond, want)
+            pending.append((want, hits[0][3], "response object %s (condition part)" % ro["name"], hits[0][2], rep))
+        hits = find("error", "Remote.ResponseObject:" + ro["name"])
+        if len(hits) != 1:
+            ctx.violation("response object %s is generated %d times in vcl_error" % (ro["name"], len(hits)), rep)
+            continue
+        _, _, data, sproj, _, extra = hits[0]
+        body = ro["content"] if ro["content"] != "" else ro["response"]
+        want = "ro(%d,%d,%s,%s)" % (code, ro["status"], hx(ro["content_type"]), hx(body))
+        if sproj != "perr" and extra != want:
+            ctx.violation("response object %s: status / content type / body of the generated vcl_error part differ from the resource" % ro["name"],
+                          dict(rep, item=ro["name"], vcl=data.decode("utf-8", "replace")[:2000], parsed=extra[:1500], expected=want[:1500]))
+    # ---- VCL snippets: every one exactly once, under its own name, ascending priority, equal priorities in the order given
+    sn = rs.get("snippets", [])
+    if not sn or any("priority" not in x for x in sn):
+        return
+    exp = T.expected_snippets(rs)
+    for x in sn:
+        stats["snippets"][x["type"]] = stats["snippets"].get(x["type"], 0) + 1
+        if x.get("dynamic"):
+            stats["dynamic_snippets" if x in exp else "dynamic_snippets_left_out"] += 1
+    sanitised = [T.sanitize(x["name"]) for x in exp]
+    stats["snippet_names_colliding_sanitised"] += len(sanitised) - len(set(sanitised))
+    for ty in T.SNIPPET_TYPES:
+        want = [(x["name"], x["content"].encode("utf-8"), x["priority"]) for x in exp if x["type"] == ty]
+        if len(set(w[2] for w in want)) < len(want):
+            stats["snippets_same_priority"] += 1
+        if ty == "none":
+            got = sorted((n, d, p) for n, (d, _, p) in svc["include"].items())
+            if got != sorted(want):
+                ctx.violation("snippets of type none: the snippets that can be included differ from the resource (names / content)",
+                              dict(rep, got=[(n, d.decode("utf-8", "replace")) for n, d, _ in got][:20], expected=[(n, d.decode("utf-8", "replace")) for n, d, _ in want][:20]))
+            continue
+        if ty == "init":
+            names = set(w[0] for w in want)
+            got = [(n, svc["items"][n]) for n in dict.fromkeys(svc["order"]) if not n.startswith("Remote.")]
+            got = [(n, d, None) for n, vals in got for d, _ in vals]
+            if [(n, d) for n, d, _ in got] != [(n, d) for n, d, _ in want]:
+                ctx.violation("snippets of type init: names / content / order (ascending priority, equal priorities as given) differ from the resource",
+                              dict(rep, got=[(n, d.decode("utf-8", "replace")) for n, d, _ in got][:20], expected=[(n, d.decode("utf-8", "replace"), p) for n, d, p in want][:20]))
+            continue
+        got = [(r[1], r[2], r[4]) for r in by_scope.get(ty, []) if not r[1].startswith("Remote.")]
+        if got != want:
+            ctx.violation("snippets of type %s: names / content / order (ascending priority, equal priorities as given) differ from the resource" % ty,
+                          dict(rep, got=[(n, d.decode("utf-8", "replace"), p) for n, d, p in got][:20],
+                               expected=[(n, d.decode("utf-8", "replace"), p) for n, d, p in want][:20]))
+
+
 def run(ctx):
     rng = ctx.rng
     thorough = ctx.thorough()
@@ -77,13 +179,15 @@ def run(ctx):
         "extraction: ExtrOcamlBasic only; OCaml 4.13.1; ocaml/common.ml + ocaml/escape_main.ml",
         "harness/cmd/implrun/tf.go (ParseStdin + TerraformFetcher + snippet.Fetch + EmbedSnippets, projection of the parsed items); "
         "gen/tf_gen.py (Terraform plan JSON writer)",
-        "modelled not verified: Model/Escape.v transcribes the template helper functions, the four item templates, readString and "
-        "decodeStringEscapes; parse_table covers the token sequence the dictionary template emits (STRING : STRING ,), not the whole "
-        "declaration grammar - the real parser is run on every generated item",
+        "modelled not verified: Model/Escape.v transcribes the template helper functions and the four item templates (tied byte by byte "
+        "to the real templates on every run); the *_parses_real / *_roundtrip theorems are about Model/Lex.v + Pump.v + Parse*.v, whose "
+        "tie to the Go lexer and parser is the correspondence of C01 / C02 (here the Go parser itself is run on every generated item)",
+        "header rules, response objects and VCL snippets: correspondence only (no theorem); the fragments users write (conditions, "
+        "sources, snippet bodies) are generated well-formed; header regex / substitution without double quote and percent",
     ]
 
     # ------------------------------------------------------------ resource sets
-    n_sets = 60000 if thorough else 8000
+    n_sets = 60000 if thorough else 6000
     plans = []       # (list of resource sets, label)
     for rs in corpus_sets():
         plans.append(([rs], "corpus"))
@@ -100,7 +204,10 @@ def run(ctx):
 
     mreq = []
     mchk = []
-    stats = {"dict_items": 0, "acl_entries": 0, "backends": 0, "directors": 0, "scoped": 0, "items": 0}
+    pending = []     # (expected VCL, projection of the generated header rule / response-object condition, what, report)
+    stats = {"dict_items": 0, "acl_entries": 0, "backends": 0, "directors": 0, "scoped": 0, "items": 0,
+             "header_rules": {}, "response_objects": 0, "snippets": {}, "snippets_same_priority": 0, "snippet_names_colliding_sanitised": 0,
+             "dynamic_snippets": 0, "dynamic_snippets_left_out": 0}
     focus_hits = {}
     evaluations = 0
     distinct = set()
@@ -122,10 +229,14 @@ def run(ctx):
                     stats["items"] += 1
                     if proj == "perr":
                         ctx.violation("generated item %s does not parse" % name, dict(rep, item=name, vcl=data.decode("utf-8", "replace")[:2000]))
-            for scope, name, data, ok in svc["scoped"]:
+            for scope, name, data, sproj, _prio, _extra in svc["scoped"]:
                 stats["scoped"] += 1
-                if ok != "ok":
+                if sproj == "perr":
                     ctx.violation("generated %s snippet %s does not parse" % (scope, name), dict(rep, item=name, vcl=data.decode("utf-8", "replace")[:2000]))
+            for name, (data, sproj, _prio) in svc["include"].items():
+                if sproj == "perr" and not data.lstrip().startswith(b"sub "):
+                    ctx.violation("snippet %s of type none does not parse as statements" % name, dict(rep, item=name, vcl=data.decode("utf-8", "replace")[:2000]))
+            fragments(ctx, rs, svc, rep, stats, pending)
 
             def item(kind, n):
                 v = svc["items"].get("Remote.%s:%s" % (kind, n))
@@ -210,6 +321,22 @@ def run(ctx):
                 mreq.append("director %s %d %d %d %s" % (hx(d["name"]), d["type"], d["retries"], d["quorum"], ",".join(hx(x) for x in d["backends"]) or "."))
                 mchk.append(("director", d["name"], data, rep, None))
 
+    # ------------------------------------------------------------ header rules / response-object conditions: the hand-written meaning, as a tree
+    texts = sorted(set(p[0] for p in pending))
+    prep = V.run_batch([os.path.join(V.BUILD, "implrun"), "vclproj"], [hx(t) for t in texts], hang_s=30)
+    proj_of = dict(zip(texts, prep))
+    frag_agree = 0
+    for want_vcl, got, what, data, rep in pending:
+        evaluations += 1
+        w = proj_of.get(want_vcl)
+        if w is None or not w.startswith("ok:"):
+            ctx.violation("harness: the expected VCL of %s does not parse (%s)" % (what, w), dict(rep, expected_vcl=want_vcl))
+        elif got != w and got != "perr":
+            ctx.violation("%s: the generated statements differ from what the rule means" % what,
+                          dict(rep, item=what, vcl=data.decode("utf-8", "replace")[:2000], expected_vcl=want_vcl))
+        else:
+            frag_agree += 1
+
     # ------------------------------------------------------------ the model's rendering of the same resources
     mrep = V.run_batch([model], mreq, hang_s=60)
     render_agree = 0
@@ -290,13 +417,16 @@ def run(ctx):
         "evaluations": evaluations,
         "distinct_nontrivial": len(distinct),
         "plans": len(plans), "rendered_items_compared_with_model": len(mreq), "render_agree": render_agree,
-        "resources": stats, "values_containing": focus_hits,
+        "resources": stats, "values_containing": focus_hits, "fragments_compared_as_trees": len(pending), "fragments_agree": frag_agree,
         "string_literals": len(lits), "unescape_agree": un_agree, "unescape_outcomes": outcomes,
         "value_alphabet": "printable text + LF CR TAB, focus on \" % { } LF CR, %XX / %uXXXX / %u{...} shaped text, non-ASCII; IPv4/IPv6, negated entries, "
-                          "names with - . blank for backends and directors; zero to twelve items",
+                          "names with - . blank for backends and directors; zero to twelve items; header rules of every action x type; "
+                          "response objects with hostile content / content type; snippets of every type, equal priorities, colliding names",
     })
     return ctx.finish(
         level="proof",
-        rule="theorems of coq/Props/C20.v (all texts, any number of items); correspondence: corpus + seeded resource sets through the real "
+        rule="theorems of coq/Props/C20.v (all texts, any number of items; dictionaries, ACLs, backends and directors end to end over the "
+             "lexer / parser models); correspondence: corpus + seeded resource sets through the real "
              "Terraform code path, every item parsed with the real parser and compared with the resource and with the model's rendering; "
+             "header rules / response objects / snippets compared with the resource (trees, fields, order); "
              "string literals through lexer+parser vs decode_string_escapes (distinct = distinct resource set / literal)")
